@@ -53,6 +53,7 @@ type scenario struct {
 	async   bool                                        // the operation continues after the command returned
 	done    func(w *world, pfx string) bool             // async operations: "the fault-free operation has finished"
 	refuses bool                                        // the command is answered NO even without a fault (APPEND fallback)
+	tear    bool                                        // also die inside the operation's store.Set calls
 	// marker of the message an APPEND hands over: when the APPEND fails the server keeps the message in the recovery
 	// mailbox instead (its designed alternative outcome) — the view "before + that copy" is then legitimate as well
 	fallback string
@@ -147,12 +148,12 @@ func scenarios(tier string) []scenario {
 	}
 	sel := func(d *sdata, mbox string) error { return cmds(d.c, "SELECT "+imapc.Quote(mbox)) }
 	return []scenario{
-		{name: "append", fallback: "new",
+		{name: "append", fallback: "new", tear: true,
 			prepare: func(w *world, pfx string) (*sdata, error) { return prepAB(w, pfx, 1, false) },
 			run: func(w *world, pfx string, d *sdata) error {
 				return appendMsg(d.c, mk(pfx, "A"), mk(pfx, "new"), "")
 			}, model: modelAppend},
-		{name: "appendrecovered", refuses: true,
+		{name: "appendrecovered", refuses: true, tear: true,
 			// the connector refuses the message: APPEND answers NO and keeps the message in the recovery mailbox
 			prepare: func(w *world, pfx string) (*sdata, error) { return prepAB(w, pfx, 1, false) },
 			run: func(w *world, pfx string, d *sdata) error {
@@ -234,7 +235,7 @@ func scenarios(tier string) []scenario {
 			run: func(w *world, pfx string, d *sdata) error {
 				return cmds(d.c, "RENAME "+imapc.Quote(mk(pfx, "A"))+" "+imapc.Quote(mk(pfx, "N/A2")))
 			}, model: modelRename},
-		{name: "conncreate",
+		{name: "conncreate", tear: true,
 			prepare: func(w *world, pfx string) (*sdata, error) { return prepAB(w, pfx, 1, false) },
 			run: func(w *world, pfx string, d *sdata) error {
 				var items []mcItem
@@ -247,7 +248,7 @@ func scenarios(tier string) []scenario {
 				}
 				return w.mustPush(&upd{Kind: "MessagesCreated", Items: items})
 			}, model: modelConnCreate},
-		{name: "connupdate",
+		{name: "connupdate", tear: true,
 			prepare: func(w *world, pfx string) (*sdata, error) { return prepAB(w, pfx, 2, true) },
 			run: func(w *world, pfx string, d *sdata) error {
 				return w.mustPush(&upd{Kind: "MessageUpdated", MsgRID: mk(pfx, "r1"), Marker: mk(pfx, "upd"), Mboxes: []string{mk(pfx, "b")}})
@@ -554,6 +555,15 @@ func runC07(ctx *common.Ctx) error {
 			w.p.kill()
 		}
 	}()
+	if os.Getenv("VERIF_C07_ONLY") == "store" { // development aid: only the cache-file scenarios
+		if err := w.tornRefillScenario(); err != nil {
+			return err
+		}
+		if err := w.repairScenario(); err != nil {
+			return err
+		}
+		return common.WriteCases(ctx.Out, "Run.RunC07", "case", nil, "")
+	}
 	if os.Getenv("VERIF_C07_ONLY") == "chunks" { // development aid: only the chunk-size scenarios
 		for _, n := range []int{1003} {
 			if err := w.chunkScenario(n); err != nil {
@@ -609,6 +619,12 @@ func runC07(ctx *common.Ctx) error {
 		if err := w.chunkScenario(n); err != nil {
 			return fmt.Errorf("scenario chunks (%d): %w", n, err)
 		}
+	}
+	if err := w.tornRefillScenario(); err != nil {
+		return fmt.Errorf("scenario torn refill: %w", err)
+	}
+	if err := w.repairScenario(); err != nil {
+		return fmt.Errorf("scenario repair: %w", err)
 	}
 	if err := w.redownloadScenario(); err != nil {
 		return fmt.Errorf("scenario redownload: %w", err)
@@ -681,8 +697,29 @@ func (w *world) runScenario(si int, sc scenario) error {
 
 	// ---- faults ----
 	kinds := boundaryKinds(ref.events)
-	for _, mode := range []string{"fail", "cancel", "kill"} {
+	modes := []string{"fail", "cancel", "kill"}
+	if sc.tear {
+		// the process dies INSIDE a store.Set of the operation, leaving a prefix of the cache file (see tearLength)
+		for cut := 0; cut <= 4; cut++ {
+			modes = append(modes, fmt.Sprintf("tear%d", cut))
+		}
+	}
+	for _, mode := range modes {
+		tear := strings.HasPrefix(mode, "tear")
 		for k := 0; k < ref.n; k++ {
+			if tear {
+				// the FIRST store.Set of the operation (thorough: every one of the first twelve boundaries)
+				first := -1
+				for i, kd := range kinds {
+					if kd == "set" {
+						first = i
+						break
+					}
+				}
+				if k >= len(kinds) || kinds[k] != "set" || (w.ctx.Tier != "thorough" && k != first) || k > first+12 {
+					continue
+				}
+			}
 			// large batches (thorough tier): the first and last 30 boundaries and every 53rd in between
 			if ref.n > 80 && k >= 30 && k < ref.n-30 && k%53 != 0 {
 				continue
@@ -692,6 +729,9 @@ func (w *world) runScenario(si int, sc scenario) error {
 				continue
 			}
 			pfx := fmt.Sprintf("%s%d_%d_", strings.ToUpper(mode[:1]), si, k)
+			if tear {
+				pfx = fmt.Sprintf("T%s_%d_%d_", mode[4:], si, k)
+			}
 			canon := fmt.Sprintf("%s boundary=%d/%d fault=%s", sc.name, k, ref.n, mode)
 			w.ctx.Current(canon, map[string]any{"scenario": sc.name, "k": k, "mode": mode})
 			d, err := sc.prepare(w, pfx)
@@ -704,7 +744,12 @@ func (w *world) runScenario(si int, sc scenario) error {
 				return err
 			}
 			w.quiesce()
-			if _, err := w.p.call(req{Op: "arm", K: k, Mode: mode}); err != nil {
+			armReq := req{Op: "arm", K: k, Mode: mode}
+			if tear {
+				armReq.Mode = "tear"
+				fmt.Sscanf(mode, "tear%d", &armReq.Cut)
+			}
+			if _, err := w.p.call(armReq); err != nil {
 				return err
 			}
 			w.underFault = true
@@ -712,7 +757,7 @@ func (w *world) runScenario(si int, sc scenario) error {
 			w.underFault = false
 			fired := false
 			diedOnError := false
-			if mode == "kill" {
+			if mode == "kill" || tear {
 				if w.p.died(3 * time.Second) {
 					fired = true
 					closeAll(d)
@@ -785,10 +830,10 @@ func (w *world) runScenario(si int, sc scenario) error {
 			}
 			// the acknowledgement must match what the database holds: a command answered OK / an update acknowledged
 			// without error whose effect is not there (transaction rolled back) is a lie about acknowledged state
-			if mode != "kill" && !diedOnError && !sc.async && runErr == nil && verdict == "before" {
+			if mode != "kill" && !tear && !diedOnError && !sc.async && runErr == nil && verdict == "before" {
 				res.Fail("acknowledged-but-not-applied | "+canon, "the operation was acknowledged as successful but the view is the one before it | "+detail, nil)
 			}
-			if mode == "kill" || diedOnError {
+			if mode == "kill" || tear || diedOnError {
 				lo, err := w.leftovers()
 				if err != nil {
 					return err
@@ -799,7 +844,7 @@ func (w *world) runScenario(si int, sc scenario) error {
 			}
 			res.Sample(map[string]string{"case": canon, "verdict": verdict})
 		}
-		if mode == "cancel" {
+		if mode == "cancel" || tear {
 			continue
 		}
 		if mode == "fail" {
